@@ -107,3 +107,8 @@ Definition plain_name (n : str) : bool :=
 Definition render_step (reg : registry) (data : json) (ft : ftable) (f : nat) (t : template)
   : element -> nat -> rstate -> rres unit :=
   fun e idx s' => rmap_err (render_element reg data ft f e s') (attach_render t idx).
+
+(* the last step of Template::render: once every element has rendered, the
+   caller's template name is put back (only on success) *)
+Definition restore_current (caller : rstate) : unit -> rstate -> rres unit :=
+  fun _ s' => ROk tt (set_current s' (s_current caller)).
